@@ -1519,12 +1519,14 @@ def t_idiv(p, q, ctx):
             if rlo >= 0 and rhi < qc:
                 return Poly(a_part)
             c0 = r_part.get((), Fr(0))
-            kq = c0 // qc
-            if kq:
-                r2 = r - Poly.const(kq * qc)
-                rlo, rhi = ctx.rng(r2)
-                if rlo >= 0 and rhi < qc:
-                    return Poly(a_part) + Poly.const(kq)
+            # the constant term may be split either way round (a negative constant with a positive symbolic remainder:
+            # -1000000 + 4k = -12*83333 + (4k - 4) with k >= 1)
+            for kq in (c0 // qc, c0 // qc + 1):
+                if kq:
+                    r2 = r - Poly.const(kq * qc)
+                    rlo, rhi = ctx.rng(r2)
+                    if rlo >= 0 and rhi < qc:
+                        return Poly(a_part) + Poly.const(kq)
         lo, hi = ctx.rng(p)
         if lo >= 0 and hi < qc:
             return ZERO
@@ -1582,12 +1584,21 @@ def t_mod(p, q, ctx):
                 a_part[m] = c
             else:
                 r_part[m] = c
-        if a_part:
+        c0 = r_part.get((), Fr(0))
+        if a_part or (qc.denominator == 1 and c0.denominator == 1 and abs(c0) >= qc):
             r = Poly(r_part)
-            alo, _ = ctx.rng(Poly(a_part))
+            alo, _ = ctx.rng(Poly(a_part)) if a_part else (0, 0)
             rlo, rhi = ctx.rng(r)
             if rlo >= 0 and rhi < qc and alo >= 0:
                 return r
+            # constant multiples of the modulus drop out as well (either way round, see t_idiv); the whole value must be >= 0
+            if lo >= 0:
+                for kq in (c0 // qc, c0 // qc + 1):
+                    if kq:
+                        r2 = r - Poly.const(kq * qc)
+                        rlo, rhi = ctx.rng(r2)
+                        if rlo >= 0 and rhi < qc:
+                            return r2
         # p in [qc, 2qc) -> p - qc
         if lo >= qc and hi < 2 * qc:
             return p - q
@@ -1688,6 +1699,17 @@ def t_bitand(p, q, ctx):
             return t_mod(inner, Poly.const(1 << w), ctx).scale(1 << k)
     a, b = sorted([p, q], key=repr)
     return Poly.atom(('bitand', a, b))
+
+
+def pin_atoms(p, ctx):
+    """substitute every atom whose range under ctx is a single point by that constant (k == 0 on this path => 12*k + n is n)"""
+    p = as_poly(p)
+    m = {}
+    for a in p.atoms():
+        lo, hi = ctx.atom_range(a)
+        if lo == hi and lo not in (INF, -INF):
+            m[a] = Poly.const(lo)
+    return p.subst(m) if m else p
 
 
 def _point(p, ctx):
